@@ -376,8 +376,13 @@ pub fn run_c15(args: &Args) -> Report {
                                 replay(),
                                 format!("sort_new_items panicked: {p}; consecutive_calls={consecutive} maxuid_after_last_load={maxuid_at_reset} maxuid_now={cur_max}"),
                             );
+                            // the panic belongs to the first module (in file order) whose own uids overflow; the
+                            // modules before it were processed without a panic, the ones behind it never reached
                             for b in &before {
-                                rep.tie(format!("srt sni {}", snapshot_text(b)), "PANIC".into());
+                                if 2 * max_uid(b) + 1 > u32::MAX as u64 {
+                                    rep.tie(format!("srt sni {}", snapshot_text(b)), "PANIC".into());
+                                    break;
+                                }
                             }
                             break;
                         }
